@@ -35,7 +35,8 @@ def build_world():
     db.AddUnitBase("area", "square metre", "m2")
     db.AddCategory("length", "length")
     db.AddCategory("depth", "length", valid_units=["m"])
-    db.AddCategory("time", "time")
+    db.AddCategory("time", "time", valid_units=["s"])
+    db.AddCategory("duration", "time")  # no valid units of its own: falls back to the list of category 'time'
     db.AddCategory("volume", "volume")
     db.AddCategory("area", "area")
     return db
@@ -76,6 +77,18 @@ QUERIES = OrderedDict(
         ("db.GetValidUnits('length')", lambda db: db.GetValidUnits("length")),
         ("db.GetValidUnits('new')", lambda db: db.GetValidUnits("new")),
         ("db.GetUnits('length')", lambda db: db.GetUnits("length")),
+        ("Scalar(1,'min','duration').GetValidUnits()", lambda db: Scalar(1.0, "min", "duration").GetValidUnits()),
+        ("Array([1],'min','duration').GetValidUnits()", lambda db: Array(np.array([1.0]), "min", "duration").GetValidUnits()),
+        ("db.GetValidUnits('duration')", lambda db: db.GetValidUnits("duration")),
+        ("db.GetValidUnits('time')", lambda db: db.GetValidUnits("time")),
+        ("db.CheckCategoryUnit('new','m')", lambda db: db.CheckCategoryUnit("new", "m")),
+        ("db.CheckCategoryUnit('new','s')", lambda db: db.CheckCategoryUnit("new", "s")),
+        ("db.CheckCategoryUnit('depth','x')", lambda db: db.CheckCategoryUnit("depth", "x")),
+        ("db.CheckCategoryUnit('depth','s')", lambda db: db.CheckCategoryUnit("depth", "s")),
+        ("db.CheckCategoryUnit('length','km')", lambda db: db.CheckCategoryUnit("length", "km")),
+        ("db.CheckQuantityTypeUnit('length','x')", lambda db: db.CheckQuantityTypeUnit("length", "x")),
+        ("db.GetCategoryInfo('new')", lambda db: repr(db.GetCategoryInfo("new"))),
+        ("db.IsValidCategory('new')", lambda db: db.IsValidCategory("new")),
         ("Scalar(1,'m','length')", lambda db: Scalar(1.0, "m", "length")),
         ("Scalar(1,'x','length')", lambda db: Scalar(1.0, "x", "length")),
         ("Scalar(1,'x','time')", lambda db: Scalar(1.0, "x", "time")),
